@@ -71,6 +71,7 @@ class _RawMixin:
                                 # first KEXINIT, as the specification allows ("MUST be
                                 # ignored if present in subsequent KEXINIT")
     cleartext_inject = None     # {'after_kexinit'|'before_newkeys': [(type, body)]}
+    _guess_sent = False
     wrong_guess = False         # True: the first KEXINIT lists a method the other side does
                                 # not have in front and sets first_kex_packet_follows: the
                                 # guess is wrong, the other side must drop our next KEX packet
@@ -106,7 +107,9 @@ class _RawMixin:
             # remembered so that a test can REPEAT our own genuine key
             # exchange message (cleartext_inject body None)
             self._last_kex_pkt = (pkttype, b''.join(args))
-        if pkttype == 20 and self.wrong_guess and not self._session_id:
+        if pkttype == 20 and self.wrong_guess and not self._session_id \
+                and not self._guess_sent:
+            self._guess_sent = True      # our own KEXINIT only, not injected ones
             from asyncssh.packet import SSHPacket, NameList, Byte
             body = b''.join(args)
             pk = SSHPacket(body)
